@@ -130,11 +130,11 @@ def enc_phase(name, sym, tag):
 
 def enc_entries(entries):
     """entries: [(id, name, sym, tag)]"""
-    return "/".join(f"{i}~{enc_phase(n, s, t)}" for (i, n, s, t) in entries) if entries else "-"
+    return "&".join(f"{i}~{enc_phase(n, s, t)}" for (i, n, s, t) in entries) if entries else "-"
 
 
 def enc_props(props):
-    return "/".join(f"{k}={ints(v)}" for k, v in props.items()) if props else "-"
+    return "&".join(f"{k}={ints(v)}" for k, v in props.items()) if props else "-"
 
 
 def py_key(key):
